@@ -172,9 +172,9 @@ Proof.
   destruct (n_state nd) eqn:S; destruct (q_kind r); destruct (s_result s); cbn [fst is_leader andb];
     try reflexivity;
     try (intros _; match goal with |- context [if n_term nd <? ?l then _ else _] => destruct (n_term nd <? l) end; reflexivity);
-    try (intros _; destruct (vote_counts rv nd r); cbn [fst]; [|reflexivity]; unfold vote_received; destruct (_ <? _); reflexivity);
+    try (intros _; destruct (vote_counts rv nd r); cbn [fst]; [|reflexivity]; rewrite vote_received_eq; destruct (_ <? _); [destruct (fix_ack_term rv)|]; reflexivity);
     try (intros _; unfold pre_vote_received; destruct (_ <? _); reflexivity);
-    try (rewrite state_commit, S; cbn; discriminate);
+    try (rewrite state_ack_commit, S; cbn; discriminate);
     try (match goal with |- context [if n_term nd <? ?l then _ else _] => destruct (n_term nd <? l) end; intros _; reflexivity).
 Qed.
 
